@@ -864,6 +864,89 @@ func checkPatternErrors(c *Ctx) {
 		}
 	}
 	c.Check("R7.4", "automata are combined only if every pattern compiled", combine.Pos(), guard, "CombineDFA is not guarded by the nil test of the collected pattern errors")
+	checkPatternRoute(c, "R7.4", fn, sites[0].in)
+}
+
+// checkPatternRoute: a definition written as a pattern is compiled by the pattern compiler, whatever its text looks like. The
+// other route (a function of the package from a string to an automaton that cannot fail) is for literals: a call of it must not
+// be reachable along edges on which the definition's is-a-pattern flag is true. A fast path for "plain" patterns skips the
+// pattern parser's validation and its reading of anchors, escapes and closing brackets.
+func checkPatternRoute(c *Ctx, rule string, fns ...*ssa.Function) {
+	key := "a definition written as a pattern is compiled by the pattern compiler only"
+	seenFn := map[*ssa.Function]bool{}
+	for _, fn := range fns {
+		if fn == nil || seenFn[fn] {
+			continue
+		}
+		seenFn[fn] = true
+		var litCalls []*ssa.Call
+		allCalls(fn, func(call ssa.CallInstruction) {
+			cv, ok := call.(*ssa.Call)
+			if !ok {
+				return
+			}
+			callee := cv.Call.StaticCallee()
+			if callee == nil || callee.Pkg != fn.Pkg || callee.Signature.Recv() != nil {
+				return
+			}
+			sig := callee.Signature
+			if sig.Params().Len() != 1 || !isString(sig.Params().At(0).Type()) || sig.Results().Len() != 1 {
+				return
+			}
+			if pt, ok := sig.Results().At(0).Type().(*types.Pointer); ok {
+				if _, n := namedTypeName(pt.Elem()); n == "DFA" {
+					litCalls = append(litCalls, cv)
+				}
+			}
+		})
+		if len(litCalls) == 0 {
+			continue
+		}
+		isFlag := func(v ssa.Value) bool {
+			u, ok := v.(*ssa.UnOp)
+			if !ok || u.Op != token.MUL {
+				return false
+			}
+			fa, ok := u.X.(*ssa.FieldAddr)
+			if !ok {
+				return false
+			}
+			b, isBool := u.Type().Underlying().(*types.Basic)
+			return isBool && b.Kind() == types.Bool && strings.Contains(strings.ToLower(fieldName(fa)), "regex")
+		}
+		tests := 0
+		for _, b := range fn.Blocks {
+			if ifi, ok := b.Instrs[len(b.Instrs)-1].(*ssa.If); ok && isFlag(ifi.Cond) {
+				tests++
+			}
+		}
+		for _, lc := range litCalls {
+			if tests == 0 {
+				c.Undecided(rule, key, lc.Pos(), "no branch on the definition's is-a-pattern flag in "+shortFn(fn))
+				continue
+			}
+			// forward reachability from the entry with the flag held true: the false edge of every test of the flag is cut
+			seen := map[*ssa.BasicBlock]bool{fn.Blocks[0]: true}
+			work := []*ssa.BasicBlock{fn.Blocks[0]}
+			for len(work) > 0 {
+				b := work[len(work)-1]
+				work = work[:len(work)-1]
+				succs := b.Succs
+				if ifi, ok := b.Instrs[len(b.Instrs)-1].(*ssa.If); ok && isFlag(ifi.Cond) {
+					succs = b.Succs[:1]
+				}
+				for _, s := range succs {
+					if !seen[s] {
+						seen[s] = true
+						work = append(work, s)
+					}
+				}
+			}
+			c.Check(rule, key, lc.Pos(), !seen[lc.Block()],
+				"the literal route ("+lc.Call.StaticCallee().Name()+") is reachable for a definition whose is-a-pattern flag is set: such a pattern is never parsed, so it is neither validated nor read as a pattern",
+				"TOK = /a]/ (an invalid pattern accepted), or any pattern the shortcut takes for plain text")
+		}
+	}
 }
 
 // lenCase interprets a statement list for one concrete value k of "the length being tested": every comparison of a len(...)
